@@ -72,6 +72,12 @@ def main():
     print("patch does not apply to /repo:", o)
     sys.exit(2)
   results = {}
+  # the seeded run rewrites evidence/<id>.json with a violating run: keep the clean run's file
+  saved = {}
+  for pid in [prop] + also:
+    ep = os.path.join(VERIF, "evidence", pid + ".json")
+    if os.path.exists(ep):
+      saved[ep] = open(ep).read()
   try:
     for pid in [prop] + also:
       rc, o = sh("./check %s --tier %s" % (pid, tier), cwd=VERIF, timeout=7200)
@@ -82,6 +88,8 @@ def main():
                       "summary": [l for l in lines if l.startswith("property=")][-1:]}
   finally:
     sh("git -C /repo checkout -- .")
+    for ep, txt in saved.items():
+      open(ep, "w").write(txt)
   meta.update({"property": prop, "confirmed_by_main_session": out["confirmed"], "check_tier": tier, "check_results": results,
                "caught": results[prop]["exit"] == 1 and results[prop]["n_violation_lines"] > 0})
   json.dump(meta, open(os.path.join(dst, "meta.json"), "w"), indent=1)
